@@ -11,5 +11,6 @@ CONSTANTS Kinds = {"plain"}
           CoreServers = {}
           Slice = 0
           Seed = 1
+          DesignAll = TRUE
 INVARIANTS PinnedRefines
 CHECK_DEADLOCK FALSE
